@@ -31,6 +31,10 @@ LOGICAL_CASES = [
     ({"type": "bytes", "logicalType": "decimal", "precision": 6, "scale": 2}, [_dec.Decimal("1234.56"), _dec.Decimal("-0.01"), b"\x01"], ["1.5", 1.5, None, _dec.Decimal("12345.67"), _dec.Decimal("0.001"), _dec.Decimal("NaN"), _dec.Decimal("-Infinity")]),
     ({"type": "fixed", "name": "D8", "size": 8, "logicalType": "decimal", "precision": 10, "scale": 3}, [_dec.Decimal("1234567.891"), b"\x00" * 8], [b"\x00", "x", 5, _dec.Decimal("12345678901"), _dec.Decimal("0.0001"), _dec.Decimal("Infinity"), _dec.Decimal("sNaN")]),
     ({"type": "fixed", "name": "D2", "size": 2, "logicalType": "decimal", "precision": 4, "scale": 2}, [_dec.Decimal("99.99"), _dec.Decimal("-99.99")], [_dec.Decimal("9999"), _dec.Decimal("-9999"), _dec.Decimal("1.234")]),
+    # a logical type the library does not know is ignored: the underlying type rules
+    ({"type": "string", "logicalType": "x-unknown-thing"}, ["text", ""], [5, None, b"x"]),
+    ({"type": "record", "name": "UL", "fields": [{"name": "a", "type": {"type": "long", "logicalType": "duration-ish"}}, {"name": "b", "type": ["null", {"type": "bytes", "logicalType": "unknown", "precision": 3}]}]},
+     [{"a": 5, "b": b"xy"}, {"a": -1, "b": None}], [{"a": "5", "b": None}, {"a": 1, "b": 7}]),
     ({"type": "record", "name": "LR", "fields": [{"name": "d", "type": ["null", {"type": "int", "logicalType": "date"}], "default": None},
                                                   {"name": "ts", "type": {"type": "array", "items": {"type": "long", "logicalType": "timestamp-millis"}}},
                                                   {"name": "u", "type": {"type": "map", "values": {"type": "string", "logicalType": "uuid"}}}]},
